@@ -53,6 +53,16 @@ CLAIMED = {
              "long-run frequencies are not used to decide.",
         technique="Lean 4 proofs of the selection law + interface-level differential check + exhaustive path enumeration for bounded instances",
         ref="7/C08"),
+    "C12": dict(
+        text="Lean 4 theorems about estimate, a line-by-line exact-rational model of _estimate_system_molecular_weight and the Mixture setters "
+             "(Python truthiness and error points included): C12_consistent (generable => one system mass on every component, each absolute mass is its "
+             "percentage of it, percentages sum to 100 within 1e-6, caller's mass kept), C12_underdetermined, rejection lemmas, and the recorded "
+             "completeness counterexample. Correspondence: all 363 shapes of 1-5 components x value patterns x caller mass through the real function, "
+             "every resulting field compared; oracle: an independent exact linear-algebra classifier of the specification.",
+        note="Known finding determined-but-refused (completeness) is reported as KNOWN-FINDING; the accepted-contradiction defect was repaired by a fix: commit "
+             "and the model follows the repaired code. binary64 vs exact rationals: compared at 1e-9, decisions at the 1e-6 tolerances are exact.",
+        technique="Lean 4 proofs over a line-by-line model + exhaustive differential check + independent classifier oracle",
+        ref="7/C12"),
 }
 
 NOT_YET = {}
